@@ -1,4 +1,4 @@
-(* Driver for the extracted C06 model.  argv[1] = re-check mode of InlineCache::set: none | index | full.  stdin: one history per line, `<id> <op>;<op>;...`; stdout one line
+(* Driver for the extracted C06 model.  argv[1] = re-check mode of InlineCache::set: none | index | full;  argv[2] = sr when set_by_name has the receiver repair.  stdin: one history per line, `<id> <op>;<op>;...`; stdout one line
    per history: `<id>\t<cached run>\t<uncached run>\t<first irregular-accessor-slot step>`.
    A run is the outputs of its operations joined by `|`, an operation's outputs are blank-separated tokens
    (see checks/c06.py for the token grammar shared with the JavaScript side), `PANIC` ends a run.
@@ -55,6 +55,14 @@ let parse_op (s : string) : op =
       OpEvict (kd, pn s, pn k, List.init (String.length keep) (fun i -> keep.[i] = '1'))
   | _ -> failwith ("bad op: " ^ s)
 
+(* super sites: T s k o r V  (super.k = V with home prototype o, this = r)   U s k o r  (super.k read) *)
+let parse_xop (s : string) : xop =
+  match String.split_on_char ' ' (String.trim s) |> List.filter (fun x -> x <> "") with
+  | ["T"; st; k; o; r; v] -> XSetThis (pn st, pn k, pn o, pn r, pval v)
+  | ["U"; st; k; o; r] -> XGetThis (pn st, pn k, pn o, pn r)
+  | _ -> XOp (parse_op s)
+let is_super (s : string) : bool = let t = String.trim s in String.length t > 2 && (t.[0] = 'T' || t.[0] = 'U') && t.[1] = ' '
+
 (* `B <f> <op>`: append <op> to the body of accessor function f *)
 let is_body (s : string) : bool = let t = String.trim s in String.length t > 2 && t.[0] = 'B' && t.[1] = ' '
 let parse_body (s : string) : int * op =
@@ -89,10 +97,12 @@ let sout (o : out) : string =
       String.concat "," (List.map (fun (k, d) -> si k ^ "=" ^ sdesc d) props) ^ "]"
   | OIC evs -> "ic:" ^ String.concat "" (List.map sev evs)
   | OBadStore -> ""
+  | OThisDataHit -> ""
 let srun (r : out list option list) : string =
   String.concat "|" (List.map (fun x -> match x with
     | Some l -> String.concat " " (List.map sout l)
     | None -> "PANIC") r)
+let sr_fix = Array.length Sys.argv > 2 && Sys.argv.(2) = "sr"
 let mode = if Array.length Sys.argv > 1 then (match Sys.argv.(1) with "none" -> RNone | "full" -> RFull | _ -> RIndex) else RIndex
 
 let () =
@@ -106,18 +116,24 @@ let () =
         let body = String.sub line (sp + 1) (String.length line - sp - 1) in
         let parts = List.filter (fun s -> String.trim s <> "") (String.split_on_char ';' body) in
         let bodies = List.map parse_body (List.filter is_body parts) in
-        let ops = List.map parse_op (List.filter (fun s -> not (is_body s)) parts) in
+        let plain = List.filter (fun s -> not (is_body s)) parts in
+        let has_super = List.exists is_super plain in
+        let xops = List.map parse_xop plain in
         let nf = List.fold_left (fun m (f, _) -> max m (f + 1)) 0 bodies in
         let ft = List.init nf (fun f -> List.map snd (List.filter (fun (g, _) -> g = f) bodies)) in
-        let rc = run mode true ft init ops in
-        let ru = run mode false ft init ops in
-        let irr = (match first_irregular mode ft init ops N0 with Some i -> Some (int_of_n i) | None -> None) in
+        let rc = xrun sr_fix mode true ft init xops in
+        let ru = xrun sr_fix mode false ft init xops in
+        let irr = if has_super then None else
+          (match first_irregular mode ft init (List.map parse_op plain) N0 with Some i -> Some (int_of_n i) | None -> None) in
         let bad = (match first_bad_store rc N0 with Some i -> Some (int_of_n i) | None -> None) in
-        let k = (match irr, bad with
-                 | Some i, Some b when b <= i -> string_of_int b ^ ":cache-store-after-accessor-changed-the-property"
-                 | Some i, _ -> string_of_int i ^ ":cached-hit-on-irregular-accessor-slot"
-                 | None, Some b -> string_of_int b ^ ":cache-store-after-accessor-changed-the-property"
-                 | None, None -> "-") in
+        let thi = (match first_this_data rc N0 with Some i -> Some (int_of_n i) | None -> None) in
+        let cands = List.filter_map (fun x -> x)
+          [ (match thi with Some i -> Some (i, 0, "cached-super-set-ignores-receiver") | None -> None);
+            (match bad with Some i -> Some (i, 1, "cache-store-after-accessor-changed-the-property") | None -> None);
+            (match irr with Some i -> Some (i, 2, "cached-hit-on-irregular-accessor-slot") | None -> None) ] in
+        let k = (match List.sort compare cands with
+                 | (i, _, c) :: _ -> string_of_int i ^ ":" ^ c
+                 | [] -> "-") in
         print_string (id ^ "\t" ^ srun rc ^ "\t" ^ srun ru ^ "\t" ^ k ^ "\n")
       end
     done
